@@ -233,7 +233,7 @@ fn run_fault(bs: &[Backend], m: &mut M, rep: &mut Report, what: &str, x: &Blob, 
 
 pub fn run(ctx: &Ctx) {
     let mut rep = Report::new("C06", &ctx.tier, ctx.seed);
-    rep.rule = "for sampled PIE / PBKW / PKE blobs of every backend (local and secret keys): every single-bit flip of every byte (PBKW parameter flips only within the cost budget iterations <= 4096 / memory <= 1 MiB, passes <= 3, lanes <= 4; the others are counted as skipped), every truncation, extension and front drop, 1 / 2 / 32 bytes inserted or deleted at every field boundary and at random interior positions, relabel to every other version and kind, other wrapping keys / passwords / recipients and single-bit changes of the secret; every acceptance is a violation; the model must give the same error kind; distinct = (backend, operation, kind, fault kind)".into();
+    rep.rule = "for sampled PIE / PBKW / PKE blobs of every backend (local and secret keys): every single-bit flip of every byte (PBKW parameter flips only within the cost budget iterations <= 4096 / memory <= 1 MiB, passes <= 3, lanes <= 4; the others are counted as skipped), every truncation, extension and front drop, 1 / 2 / 32 bytes inserted or deleted at every field boundary and at random interior positions, relabel to every other version and kind, other wrapping keys / passwords / recipients and single-bit changes of the secret, each other-key fault immediately after the genuine operation (which must still succeed); every acceptance is a violation; the model must give the same error kind; distinct = (backend, operation, kind, fault kind)".into();
     let bs = lab::backends();
     let mut m = M::new(&ctx.model);
     if let Some(path) = &ctx.replay {
@@ -297,6 +297,16 @@ pub fn run(ctx: &Ctx) {
                     continue; // RSA-4096 private operation per fault: a stride in quick
                 }
                 let with_model = if slow { i % 64 == 0 } else { thorough || i % 3 == 0 };
+                // state carried between calls (a memo of the last successful or attempted operation): the genuine
+                // operation IMMEDIATELY before every other-key / other-password fault and before a sample of the
+                // others, and it must itself still succeed after the rejected ones that preceded it
+                if what.starts_with("other secret") || what.starts_with("relabel") || i % 41 == 0 {
+                    rep.evaluations += 1;
+                    if let Err(e) = unwrap(&bs, blob) {
+                        rep.violation(&format!("c06.{}.{}.genuine-rejected-after-faults", b.name, blob.op), format!("{} {}: the unmodified blob is rejected ({e}) after {i} rejected variants of it were offered", b.name, blob.op), blob_json(&bs, blob, "genuine after faults"));
+                        break;
+                    }
+                }
                 run_fault(&bs, &mut m, &mut rep, what, x, with_model);
                 if rep.violations.len() >= 40 {
                     break;
